@@ -477,7 +477,18 @@ struct IV {
                     if (lt::val(t) != val) { err = "try_push_back(lvalue) modified its argument"; }
                     break;
                 }
-                case I_TRY_PUSH_RREF: check_ptr(x.try_push_back(T(val)), "try_push_back(&&)"); break;
+                case I_TRY_PUSH_RREF: {
+                    if ((op.c & 2U) != 0) {
+                        // a named object offered as rvalue: when the push is refused (null) the caller keeps its object
+                        T t(val);
+                        bool const was_full = mx.size() == N;
+                        check_ptr(x.try_push_back(std::move(t)), "try_push_back(&&)");
+                        if (was_full && err.empty() && lt::val(t) != val) { err = "try_push_back(&&) on a full vector returned null but consumed (moved from) the offered object"; }
+                    } else {
+                        check_ptr(x.try_push_back(T(val)), "try_push_back(&&)");
+                    }
+                    break;
+                }
                 case I_TRY_EMPLACE: check_ptr(x.try_emplace_back(val), "try_emplace_back"); break;
                 case I_UNCHECKED_PUSH_CREF: {
                     if constexpr (N > 0) {
